@@ -500,7 +500,21 @@ func c15Case(c *core.Ctx, idx int) {
 		}
 		if r.IntN(3) == 0 {
 			// an abandoned document: Reset may come at any point of a call sequence
-			switch r.IntN(4) {
+			switch r.IntN(5) {
+			case 4:
+				// abandoned after a lot of output (an outputter may decide not to keep a big buffer), with
+				// containers still open
+				reused.StartObject()
+				reused.NameField("big")
+				reused.StartArray()
+				for i, n := 0, 1500+r.IntN(3000); i < n; i++ {
+					reused.String("0123456789012345678901234567890123456789")
+				}
+				if r.IntN(2) == 0 {
+					reused.StartObject()
+					reused.NameField("open")
+				}
+				rec.Count("abandoned_large_documents", 1)
 			case 0:
 				reused.StartObject()
 				reused.NameField("abandoned")
